@@ -484,8 +484,68 @@ def probe(args):
             "triangle_abs_dev": abs(a - ra)}
 
 
+# ------------------------------------------------------------------------------------------------
+# user-supplied correlation functions with finite support ("C(tau) = 0 for tau > tau_max" as the class documents): the
+# callable returns a plain float 0.0 outside its support, a complex number inside.  Every cell against the 1D
+# overlap-weight integral of the callable itself.
+
+def window_case(args):
+    tau_max, w0, temps, dts = args
+    temp, dt = float(temps), float(dts)
+    base = O.mode_c(0.6, w0, temp)
+
+    def cfun(tau):
+        return complex(base(tau)) * (1.0 - 0.4 * tau / tau_max) if abs(tau) < tau_max else 0.0
+    recs = []
+    try:
+        lib = oq.CustomCorrelations(cfun)
+        x, wt = O.gl(GL_ORDER)
+        h = 0.25 * dt
+        npieces = 11
+        nodes = np.concatenate([(2 * j + 1) * h + h * x for j in range(npieces)])
+        wts = np.concatenate([h * wt for _ in range(npieces)])
+        cn = np.array([complex(cfun(float(s_))) for s_ in nodes])
+        scale = abs(complex(cfun(0.0))) * dt * dt
+        for name, shape, k, k2 in CELLS:
+            t1 = k * dt
+            if shape == "upper-triangle":
+                wfun = O.weight_tri(dt, t1)
+                got = complex(lib.correlation_2d_integral(dt, t1, shape=shape))
+            elif shape == "square":
+                wfun = O.weight_rect(t1, t1 + dt, dt)
+                got = complex(lib.correlation_2d_integral(dt, t1, shape=shape))
+            else:
+                wfun = O.weight_rect(t1, k2 * dt, dt)
+                got = complex(lib.correlation_2d_integral(dt, t1, k2 * dt, shape=shape))
+            own = complex(np.sum(cn * wfun(nodes) * wts))
+            recs.append((name, abs(got - own) / scale, abs(got.imag - own.imag) / scale, abs(own.imag) / scale))
+    except Exception as ex:  # noqa
+        return {"exc": f"{type(ex).__name__}: {ex}"[:160], "recs": recs}
+    return {"exc": None, "recs": recs}
+
+
+WINDOW_TOL = 1e-4          # relative to |C(0)| dt^2; the library integrates a discontinuous integrand with dblquad
+
+
 def run(tier, seed):
     rep = Report(LEVEL)
+    # tau_max / dt combinations: the support ends before, at, and after the probe point tau = 1; all break points are
+    # multiples of dt/2 (piece boundaries of the reference quadrature)
+    wj = [(tm, w0, t, d) for tm in (0.9, 1.5, 0.6) for w0 in (1.0, 4.0) for t in ("0", "0.5") for d in ("0.1", "0.3")]
+    wres = pmap(window_case, wj, seed=seed)
+    wmax = 0.0
+    for j, r in zip(wj, wres):
+        if r["exc"]:
+            rep.add(Violation("CustomCorrelations-finite-support|exception", f"{j}: {r['exc']}", {"kind": "window", "args": list(j)}))
+            continue
+        for name, dev, idev, isize in r["recs"]:
+            if dev > WINDOW_TOL:
+                part = "imaginary-part-missing" if isize > 10 * WINDOW_TOL and abs(idev - isize) < 1e-3 * isize else "wrong-value"
+                rep.add(Violation(f"CustomCorrelations-finite-support|{shape_class(name)}|{part}",
+                                  f"tau_max={j[0]} w0={j[1]} T={j[2]} dt={j[3]} cell {name}: differs from the integral of "
+                                  f"the callable by {dev:.2e} |C(0)| dt^2", {"kind": "window", "args": list(j)}))
+            else:
+                wmax = max(wmax, dev)
     cases, mats = build_cases(tier)
     res = pmap(eval_case, cases, chunksize=1, seed=seed)
     mres = pmap(eval_matsubara, mats, chunksize=1, seed=seed)
@@ -578,7 +638,8 @@ def run(tier, seed):
     maxq = max([q for q, _ in worst.values()] + [max_class, 0.0])
     print(f"[C12] worker cpu {cpu:.0f} s", file=sys.stderr)
     rep.coverage = {
-        "evaluations": n_eval,
+        "evaluations": n_eval + sum(len(r["recs"]) for r in wres),
+        "finite_support_custom_correlations": {"cases": len(wj), "max_dev_over_C0dt2": wmax, "tolerance": WINDOW_TOL},
         "objects": len(objects(tier)),
         "object_x_dt_cases": len(cases), "matsubara_cases": len(mats),
         "distinct_nontrivial": len(nontrivial),
@@ -632,7 +693,18 @@ def run(tier, seed):
 
 def replay(rp):
     kind = rp["kind"]
-    ob = rp["ob"]
+    ob = rp.get("ob")
+    if kind == "window":
+        r = window_case(tuple(rp["args"]))
+        bad = [x for x in r["recs"] if x[1] > WINDOW_TOL]
+        v = None
+        if r["exc"]:
+            v = "CustomCorrelations-finite-support|exception"
+        elif bad:
+            name, dev, idev, isize = bad[0]
+            part = "imaginary-part-missing" if isize > 10 * WINDOW_TOL and abs(idev - isize) < 1e-3 * isize else "wrong-value"
+            v = f"CustomCorrelations-finite-support|{shape_class(name)}|{part}"
+        return {"obs": [list(map(str, b)) for b in bad[:3]], "violation": v}
     if kind == "class":
         a = eval_case({"ob": ob, "dt": rp["dt"], "selfint": False})
         b = eval_case({"ob": dict(ob, cls="PowerLawSD"), "dt": rp["dt"], "selfint": False})
